@@ -125,6 +125,16 @@ func (ds *dataStore) moveStoreKeyUnlocked(srcKeyName, destKeyName string, dds *d
 	return
 }
 
+// Empties the database in place. Connections that have this database selected,
+// keys they WATCH and clients blocked on its lists all keep referring to the
+// same (now empty) database.
+func (ds *dataStore) clearUnlocked() {
+	ds.data = newRedisDict()
+	ds.data.dirty = true
+	ds.cursors = make(map[int64]*storeKey, 2)
+	ds.cursorsSize = 2
+}
+
 func (ds *dataStore) enterListBlock(keyName string) (ws *wakeSignal) {
 	simBeforeLock(&ds.mu, "ds.mu")
 	ds.mu.Lock()
